@@ -392,11 +392,34 @@ Example rounding_hyp_satisfiable :
   forallb finv l = true /\ partial_finite nnzero l = true /\ prod_ok n1 l = true.
 Proof. vm_compute. repeat split. Qed.
 
-(* Kept but NOT proved: avg "up to rounding" (avg = fl(sum / n) is proved exactly above; a bound
-   |avg - exact mean| additionally needs the division's underflow analysis).  Decided on the
-   implementation by the exact-rational search of checks/c15.py (avg = fl(sum/n) bit for bit,
-   and sum within the bound). *)
-Definition C15_avg_rounding_full : Prop := forall l, l <> [] ->
+(* avg: fl(sum / n) (proved exactly above) is within the bound of the exact mean; the absolute term
+   2^-1075 is the division's rounding error in the subnormal range *)
+Theorem C15_avg_rounding_bound : forall l, l <> [] -> Z.of_nat (length l) <= 2^53 ->
   forallb finv l = true -> partial_finite nnzero l = true ->
   (Rabs (SF2R radix2 (ndiv (fold_sum l) (num_of_Z (Z.of_nat (length l)))) - rsum l / INR (length l))
    <= ((1 + u) ^ length l - 1) * (rabs_sum l / INR (length l)) + bpow radix2 (-1075))%R.
+Proof. exact avg_rounding_bound. Qed.
+Check C15_avg_rounding_bound : forall l, l <> [] -> Z.of_nat (length l) <= 2^53 ->
+  forallb finv l = true -> partial_finite nnzero l = true ->
+  (Rabs (SF2R radix2 (ndiv (fold_sum l) (num_of_Z (Z.of_nat (length l)))) - rsum l / INR (length l))
+   <= ((1 + u) ^ length l - 1) * (rabs_sum l / INR (length l)) + bpow radix2 (-1075))%R.
+Print Assumptions C15_avg_rounding_bound.
+
+Theorem C15_avg_perm_rounding : forall l l', Permutation l l' -> l <> [] ->
+  Z.of_nat (length l) <= 2^53 ->
+  forallb finv l = true -> partial_finite nnzero l = true -> partial_finite nnzero l' = true ->
+  (Rabs (SF2R radix2 (avg_of l) - SF2R radix2 (avg_of l'))
+   <= 2 * (((1 + u) ^ length l - 1) * (rabs_sum l / INR (length l)) + bpow radix2 (-1075)))%R.
+Proof. exact avg_perm_rounding. Qed.
+Check C15_avg_perm_rounding : forall l l', Permutation l l' -> l <> [] ->
+  Z.of_nat (length l) <= 2^53 ->
+  forallb finv l = true -> partial_finite nnzero l = true -> partial_finite nnzero l' = true ->
+  (Rabs (SF2R radix2 (avg_of l) - SF2R radix2 (avg_of l'))
+   <= 2 * (((1 + u) ^ length l - 1) * (rabs_sum l / INR (length l)) + bpow radix2 (-1075)))%R.
+Print Assumptions C15_avg_perm_rounding.
+
+(* avg_of is what bi_avg returns *)
+Theorem C15_avg_of_is_avg : forall l, l <> [] -> bi_avg (nums l) = Ok (VNum (avg_of l)).
+Proof. exact avg_of_is_avg. Qed.
+Check C15_avg_of_is_avg : forall l, l <> [] -> bi_avg (nums l) = Ok (VNum (avg_of l)).
+Print Assumptions C15_avg_of_is_avg.
